@@ -119,7 +119,12 @@ CFG = {
                   "Go runtime ('no interleaving produces a data race or a crash') are observed only by sampling: the "
                   "same workload under the race detector and recover() around every call - partial on that clause. "
                   "Node evaluation inside the critical section is abstracted to 'read the listed parameters' (caching "
-                  "= from-scratch is C11). Schedules of the real runs are whatever the Go scheduler produced",
+                  "= from-scratch is C11). Schedules of the real runs are whatever the Go scheduler produced (plus one "
+                  "orchestrated scenario). The HTTP handlers are modelled as observations of their single Instance call "
+                  "(containing interval, own response) under the generated handler facts - request parsing / response "
+                  "writing are not given a semantics; the handler facts are conservative (a metrics counter written in a "
+                  "value handler would break them). Race reports naming the documented-unlocked reader "
+                  "Instance.ModelVersion() (polled by the edit server's hub) are counted, not failing",
     "technique": "Coq proof (invariant over a small-step lock semantics, verified Wing-Gong checker) + generated lock "
                  "facts (T) + vm_compute judgement of recorded concurrent histories (H) + race detector sampling",
     "design_ref": "DESIGN.md §4 C13",
